@@ -49,7 +49,7 @@ def _form_rings_bilocally(mol: 'MolecularGraph', rings: list):
              and rings != mol._ring_bond_flags and rings != mol._roots
              and all(rings != mol._adj_list[i] for i in range(len(mol._atoms))))
     requires(all(ring_ok(mol, rings[j]) for j in range(len(rings))))
-    opaque("bonds_ok", "adj_ok")
+    opaque("bonds_ok", "adj_ok", "cap_key")
     modifies(mol._bond_dict, mol._bond_counts, mol._ring_bond_flags,
              each(mol._adj_list[i] for i in range(len(mol._atoms))),
              each(mol._bond_dict[k] for k in anyvalue() if k in mol._bond_dict))
